@@ -109,8 +109,9 @@ structure Env where
   dGap : Nat := 0
   /-- repo/stat (round 8b): the RepoStat calls (numbered in the order they reach the peers) that answer an error -/
   statBad : List Nat := []
-  /-- repo/gc (round 8b): the scripted collection reports errors (bit 0: a peer failed as a whole, bit 1: a key error);
-      the model's observables do not depend on it as long as `stream-errors=true` (errors travel in the body) -/
+  /-- repo/gc (round 8b/8c): the scripted collection reports errors (bit 0: a peer failed as a whole, bit 1: a key error).
+      With `stream-errors=true` they travel in the body (plain 200); otherwise the handler joins them into the
+      `X-Stream-Error` trailer AFTER the collection ran (`gcSerr`, known finding K12d) -/
   gcErr : Nat := 0
 deriving Repr
 
@@ -482,9 +483,15 @@ def repoStatH (e : Env) : HOut :=
     { status := 200, items := [dec (statOkCount e * 1000), dec (statOkCount e * 100000)],
       rpcs := { name := .peers } :: (List.range e.npeers).map (fun k => { name := .repoStat, ok := statOk e k }) }
 
-def repoGCH (e : Env) : HOut :=
+/-- repoGCHandler's last statement: `if !streamErrors && mErrStr != "" { w.Header().Set("X-Stream-Error", mErrStr) }`
+    with `streamErrors := queryValues.Get("stream-errors") == "true"` (the literal spelling only) and `mErrStr` the joined
+    peer / key errors of the collection (non-empty iff the collection reported one) -/
+def gcSerr (e : Env) (q : List (Bytes × Bytes)) : Bool :=
+  e.gcErr != 0 && !(qGet q b!"stream-errors" == b!"true")
+
+def repoGCH (e : Env) (q : List (Bytes × Bytes)) : HOut :=
   if e.fail .repoGC then { status := 500, rpcs := [{ name := .repoGC, ok := false }] }
-  else { status := 200, items := e.gcKeys, rpcs := [{ name := .repoGC }] }
+  else { status := 200, serr := gcSerr e q, items := e.gcKeys, rpcs := [{ name := .repoGC }] }
 
 /-- the RPC a thin pin handler uses, as written in today's source -/
 def pinOpOf (h : String) : RpcName :=
@@ -501,7 +508,7 @@ def handlerOut (typedUnpin : Bool) (h : String) (e : Env) (q : List (Bytes × By
   else if h == "pinUpdateHandler" then pinUpdateH e q
   else if h == "addHandler" then addH typedUnpin e q obs
   else if h == "repoStatHandler" then repoStatH e
-  else if h == "repoGCHandler" then repoGCH e
+  else if h == "repoGCHandler" then repoGCH e q
   else { status := 0 }
 
 /-- the query the handler sees -/
@@ -620,7 +627,12 @@ def arm (i : Input) (obs : AddObs) : String :=
     let o := handlerOut typedUnpinNow h i.env (handlerQuery i arg) obs
     let unpinRefused := h == "addHandler" && o.status == 200 && qGet (handlerQuery i arg) b!"pin" == b!"false" &&
       o.rpcs.length == 1 && o.rpcs.all (·.ok)
-    h ++ (if unpinRefused then "-unpin-refused" else "") ++ (if arg.isSome then "-slash" else "") ++ "-" ++ toString o.status ++ (if o.serr then "-serr" else "") ++
+    h ++ (if unpinRefused then "-unpin-refused" else "") ++ (if arg.isSome then "-slash" else "") ++ "-" ++ toString o.status ++
+      -- (repo/gc keeps the arm name `repoGCHandler-200` when the trailer is set: K12d's registered signature is keyed on it)
+      (if o.serr && h != "repoGCHandler" then "-serr" else "") ++
+      -- a collection that reported errors, answered without the trailer (stream-errors=true): its own arm, so that K12d's
+      -- signature (which does not look at the query) cannot match an implementation that sets the trailer there too
+      (if h == "repoGCHandler" && o.status == 200 && i.env.gcErr != 0 && !o.serr then "-errors-in-body" else "") ++
       (if o.rpcs.any (fun r => !r.ok) then "-rpcfail" else "")
 
 /-- the arguments whose ParsePath / cid.Decode result the model consults -/
